@@ -1,7 +1,18 @@
 // GENERATED FILE - built by /verif/tools/extract.py from /repo's working tree. Do not edit.
+#![feature(sized_hierarchy)]
 #![allow(unused_imports, unused_variables, dead_code, unused_mut, unused_parens)]
 use vstd::prelude::*;
 use core::cmp::Ordering;
 use vstd::std_specs::cmp::*;
 use std::sync::Arc;
+use std::io;
+use std::io::{ErrorKind, SeekFrom};
+use std::num::TryFromIntError;
+use std::convert::{TryFrom, TryInto};
+use std::ops::Range;
+use std::path::{Path, PathBuf};
+use core::marker::PointeeSized;
+use vstd::std_specs::convert::*;
 verus! {
+// Assumption: 64-bit target (usize == u64), as on every platform raindb's test-suite runs on.
+global size_of usize == 8;
